@@ -516,7 +516,7 @@ def scn_history(ctx):
 
 
 FAMILIES = {"history": scn_history}
-PLAN = {"quick": [("history", 2400, 10)], "thorough": [("history", 120000, 40)]}
+PLAN = {"quick": [("history", 1500, 10)], "thorough": [("history", 120000, 40)]}
 BUDGET = {"quick": 200, "thorough": 2400}
 
 META = {
